@@ -248,6 +248,69 @@ def check_schedule(inp):
     return fails
 
 
+def pressure_items(n, seed):
+    """n different vectors, each met through the constructor and, v2/v3, inside a text: whatever the library memoises with a bound
+    (128, 256, 1024 entries ...) is full afterwards and starts to evict"""
+    rng = random.Random(runner.mix(seed, 2024))
+    out = []
+    for i in range(n):
+        ver = spec.VKEYS[i % 3]
+        v = gen.rng_vector(rng, ver)
+        out.append(["ctor", ver, v])
+        if ver != "4":
+            out.append(["text", "note %d - %s - end" % (i, v)])
+    return out
+
+
+_PRESSED = {}
+
+
+def check_pressure(inp):
+    """
+    as 'schedule', but the process has seen many different vectors before the threads start (bounded caches are full, every
+    miss evicts), and the jobs are new to it.  Every case of a process uses the same pressure, so the state is a function of the case.
+    """
+    key = (inp["pressure"]["n"], inp["pressure"]["seed"])
+    if key not in _PRESSED:
+        for it in pressure_items(*key):
+            local_eval(it)
+        _PRESSED[key] = True
+    return check_schedule(inp)
+
+
+def check_pct(inp):
+    """
+    2-3 threads, each working through a LIST of items, under the priority scheduler (sched.Sched pct mode: the thread of highest
+    priority runs, at d-1 change points - counted in lines that touch module-level mutable state - the running thread is parked
+    behind all others).  Optionally after cache pressure.  Every item must answer what it answers sequentially afterwards.
+    """
+    from .. import sched
+    import cvss
+    if inp.get("pressure"):
+        key = (inp["pressure"]["n"], inp["pressure"]["seed"])
+        if key not in _PRESSED:
+            for it in pressure_items(*key):
+                local_eval(it)
+            _PRESSED[key] = True
+    else:
+        warm_up()
+    lists = inp["jobs"]
+    S = sched.Sched([(lambda items=items: [local_eval(it) for it in items]) for items in lists], [], os.path.dirname(os.path.abspath(cvss.__file__)), None, pct=inp["pct"])
+    res = S.run(timeout=300)
+    fails = []
+    for items, got in zip(lists, res):
+        if isinstance(got, dict) and "thread_exc" in got:
+            fails.append(failure("no exception", got["thread_exc"], note="thread working through %d items under the priority schedule" % len(items)))
+            continue
+        for it, b in zip(items, got):
+            a = local_eval(it)
+            if _norm(b) != a:
+                fails.append(failure(a, _norm(b), note="thread evaluating %s under the priority schedule" % json.dumps(it)[:160]))
+                break
+    inp["_stats"] = (S.switches, S.events, S.hot_events)
+    return fails
+
+
 def check_hashseed(inp):
     items, seeds = inp["items"], inp["seeds"]
     base = None
@@ -280,7 +343,10 @@ def many_items(n, seed, distinct):
             v = v[:-1]                      # now and then a rejected string
         if not distinct and i % 23 == 0:
             v = ("", "/", "CVSS:3.1/", "AV:N/", "CVSS:4.0/AV:N", "x")[(i // 23) % 6]      # ... and the simplest rejected strings, again and again
-        out.append(["ctor", ver, v])
+        if distinct and i % 5 == 3 and ver != "4" and i % 17:
+            out.append(["text", "%d: %s, and then some" % (i, v)])       # the extractor sees thousands of different vectors too
+        else:
+            out.append(["ctor", ver, v])
     return out
 
 
@@ -321,6 +387,8 @@ def check_many(inp):
                 break
     idx = sorted(set(list(range(0, n, 40)) + list(range(max(0, n - 100), n))))
     for i in idx:
+        if bulk[i][0] != "ctor":
+            continue
         kind, ver, v = bulk[i]
         got = res[k + i]
         ok = ref.classify(ver, v)[0] == ref.OK
@@ -535,7 +603,9 @@ def schedule_part(n_examples, shard):
             else:
                 jobs.append(draw(api)[1])
         schedule = draw(st.lists(st.tuples(st.integers(0, n - 1), st.integers(1, 60)), min_size=0, max_size=60))
-        tail = draw(st.sampled_from((None, 1, 2, 3, 5, 7, 19, 53, 211)))
+        tail = draw(st.sampled_from((None, 1, 2, 3, 5, 7, 19, 53, 211, "lcg3", "lcg8", "lcg30")))
+        if isinstance(tail, str):
+            tail = [draw(st.integers(0, 1 << 20)), int(tail[3:])]        # aperiodic tail
         return jobs, [list(x) for x in schedule], tail
 
     @runner.seeded(19, 1000 + shard)
@@ -565,6 +635,67 @@ def schedule_part(n_examples, shard):
     return part
 
 
+def pressure_part(shard, n_cases, seed):
+    part = runner.Part(PID)
+    rng = random.Random(runner.mix(seed, 191, shard))
+    pressure = {"n": (140, 300, 600, 1200)[shard % 4], "seed": runner.mix(seed, shard) % 1000}
+    for i in range(n_cases):
+        n = rng.choice((2, 2, 3, 4))
+        kind = rng.choice(("text", "text", "ctor", "mixed"))
+        jobs = []
+        for j in range(n):
+            ver = spec.VKEYS[rng.randrange(3)] if kind != "text" else spec.VKEYS[rng.randrange(2)]
+            v = gen.rng_vector(rng, ver)
+            if kind == "text" or (kind == "mixed" and j % 2 and ver != "4"):
+                more = [gen.rng_vector(rng, spec.VKEYS[rng.randrange(2)]) for _ in range(rng.choice((1, 3, 6, 10)))]
+                jobs.append(["text", "a %s b %s c" % (v, " , ".join(more))])        # many new keys per call: a bound is crossed every few cases
+            else:
+                jobs.append(["ctor", ver, v])
+        if rng.random() < 0.3:
+            jobs[1] = jobs[0]
+        schedule = [[rng.randrange(n), rng.choice((1, 1, 2, 3, 5, 8, 13, 30))] for _ in range(rng.randrange(0, 50))]
+        inp = {"jobs": jobs, "schedule": schedule, "tail_quantum": rng.choice((1, 2, 3, [rng.randrange(1 << 20), 3], [rng.randrange(1 << 20), 6], [rng.randrange(1 << 20), 12], [rng.randrange(1 << 20), 40])),
+               "pressure": pressure}
+        part.check("pressure", check_pressure, inp)
+        st_ = inp.pop("_stats", (0, 0))
+        part.count(inp, nontrivial=st_[0] >= 3, classes=("under-cache-pressure", "pressure=%d" % pressure["n"]))
+        part.extra["switches"] = part.extra.get("switches", 0) + st_[0]
+        part.extra["line_events"] = part.extra.get("line_events", 0) + st_[1]
+    return part
+
+
+def pct_part(shard, n_cases, seed):
+    part = runner.Part(PID)
+    rng = random.Random(runner.mix(seed, 192, shard))
+    pressure = {"n": (140, 300, 600)[shard % 3], "seed": runner.mix(seed, shard) % 1000} if shard % 2 else None
+    k = 3000
+    for i in range(n_cases):
+        n = rng.choice((2, 2, 3))
+        kind = rng.choice(("texts", "texts", "ctors", "same-text", "mixed"))
+        m = rng.choice((40, 120, 300, 420))
+        lists = []
+        for j in range(n):
+            vs = [(spec.VKEYS[rng.randrange(3 if kind in ("ctors", "mixed") else 2)]) for _ in range(m)]
+            vs = [(ver, gen.rng_vector(rng, ver)) for ver in vs]
+            if kind == "ctors" or (kind == "mixed" and j == 0):
+                lists.append([["ctor", ver, v] for ver, v in vs])
+            else:
+                step = rng.choice((1, 7, 50))
+                lists.append([["text", " ; ".join(v for ver, v in vs[a:a + step] if ver != "4") or "nothing"] for a in range(0, m, step)])
+        if kind == "same-text":
+            lists = [lists[0]] * n
+        inp = {"jobs": lists, "pct": {"seed": rng.randrange(1 << 30), "d": rng.choice((2, 2, 3, 4)), "k": k}, "pressure": pressure}
+        part.check("pct", check_pct, inp)
+        st_ = inp.pop("_stats", (0, 0, 0))
+        if st_[2]:
+            k = st_[2]                    # number of hot line events of the previous case: where the next case places its change points
+        small = dict(inp, jobs=[l[:2] + ["... %d items" % len(l)] for l in lists])
+        part.count(small, nontrivial=st_[0] >= 1, classes=("priority-schedule", "priority-schedule:" + kind, "priority-schedule after pressure" if pressure else "priority-schedule cold"))
+        part.extra["switches"] = part.extra.get("switches", 0) + st_[0]
+        part.extra["line_events"] = part.extra.get("line_events", 0) + st_[1]
+    return part
+
+
 def stress_part(shard, n, seed):
     """free-running threads with a tiny switch interval; verdict: equal to sequential or a concrete mismatch"""
     part = runner.Part(PID)
@@ -574,14 +705,18 @@ def stress_part(shard, n, seed):
     for i in range(n):
         ver = spec.VKEYS[i % 3]
         items.append(["ctor", ver, gen.rng_vector(rng, ver)])
-    seq = [local_eval(it) for it in items]
-    res = [None] * len(items)
+    # threads FIRST (whatever is filled lazily is still cold), the sequential reference afterwards; two threads walk each
+    # slice of the list at the same time, so the same new key is looked up by two threads at once
+    res = [[None] * len(items), [None] * len(items)]
     old = sys.getswitchinterval()
     sys.setswitchinterval(1e-6)
     try:
         def worker(k):
-            for i in range(k, len(items), 8):
-                res[i] = local_eval(items[i])
+            for i in range(k % 4, len(items), 4):
+                try:
+                    res[k // 4][i] = local_eval(items[i])
+                except BaseException as e:  # noqa
+                    res[k // 4][i] = {"escaped": "%s: %s" % (type(e).__name__, e)}
         ths = [threading.Thread(target=worker, args=(k,)) for k in range(8)]
         for t in ths:
             t.start()
@@ -589,7 +724,8 @@ def stress_part(shard, n, seed):
             t.join(120)
     finally:
         sys.setswitchinterval(old)
-    bad = [(it, a, b) for it, a, b in zip(items, seq, res) if a != b]
+    seq = [local_eval(it) for it in items]
+    bad = [(it, a, b) for r in res for it, a, b in zip(items, seq, r) if a != b]
     part.count(None, classes=("free-running-stress",), n=len(items))
     for it, a, b in bad[:3]:
         part.add_failures("schedule", {"jobs": [it], "schedule": [], "note": "free-running stress: not replayable deterministically"},
@@ -736,6 +872,10 @@ def run(tier, t0):
         part.merge(p)
     part.merge(runner.hyp_shards("vf.props.c19", "history_part", 320 if q else 4000, args=(20 if q else 40, baseline)))
     part.merge(runner.hyp_shards("vf.props.c19", "schedule_part", 800 if q else 16000))
+    for p in runner.parallel("vf.props.c19", "pressure_part", [(s, 40 if q else 600, runner.SEED) for s in range(runner.NPROC)]):
+        part.merge(p)
+    for p in runner.parallel("vf.props.c19", "pct_part", [(s, 5 if q else 60, runner.SEED) for s in range(runner.NPROC)]):
+        part.merge(p)
     for p in runner.parallel("vf.props.c19", "stress_part", [(s, 1200 if q else 10000, runner.SEED) for s in range(4)]):
         part.merge(p)
     for p in runner.parallel("vf.props.c19", "hashseed_part", [(s, 150 if q else 800, runner.SEED) for s in range(runner.NPROC if not q else 8)]):
@@ -745,7 +885,7 @@ def run(tier, t0):
     rule = ("(1) histories: state-machine sequences of API calls (valid/invalid constructions of every version, RH ok/mismatch/"
             "malformed, text extraction, interactive runs, in-process CLI runs), probe + global-state snapshot after every step, "
             "all results re-computed by a fresh process in another order; (2) 2-4 threads under a drawn line-level schedule; "
-            "free-running 8-thread stress; (3) probe corpus under 5 PYTHONHASHSEED values; (4) all v2 base vectors, half of the "
+            "the same after 140-1200 different vectors went through the process (bounded caches full); 2-3 threads working through lists of hundreds of items under a priority schedule with 1-3 change points placed on lines that touch module-level mutable state; free-running 8-thread stress; (3) probe corpus under 5 PYTHONHASHSEED values; (4) all v2 base vectors, half of the "
             "v3 base vectors and seeded vectors of every version under 40 ambient decimal contexts vs the exact oracles. "
             "non-trivial = history with >= 3 steps incl. a rejected and a successful call / schedule with >= 3 forced switches / "
             "every hash-seed and decimal-context case; histories and schedules distinct by hash, the rest counted")
@@ -754,9 +894,9 @@ def run(tier, t0):
                           "schedules are explored at line granularity in frames of cvss/*.py; interleavings inside one line are left to the free-running stress",
                           "lazy imports of the standard library are triggered by a warm-up before the first snapshot"],
                          required=("long-history", "history", "op:ctor-valid", "op:ctor-invalid", "op:rh-mismatch", "op:text", "op:interactive", "op:cli",
-                                   "batch-compared", "ambient-in-fresh-process", "schedule", "switches>=10", "same-job-in-several-threads", "distinct-jobs", "free-running-stress", "hashseed", "decimal", "decimal:signal-flags-set", "prec=28", "prec=200"),
+                                   "batch-compared", "ambient-in-fresh-process", "schedule", "switches>=10", "same-job-in-several-threads", "distinct-jobs", "under-cache-pressure", "priority-schedule", "free-running-stress", "hashseed", "decimal", "decimal:signal-flags-set", "prec=28", "prec=200"),
                          extra={"forced_thread_switches": part.extra.get("switches", 0), "traced_line_events": part.extra.get("line_events", 0)})
 
 
 CHECKS = {"history": check_history, "schedule": check_schedule, "hashseed": check_hashseed, "decimal": check_decimal,
-          "ambient": check_ambient, "many": check_many}
+          "ambient": check_ambient, "many": check_many, "pressure": check_pressure, "pct": check_pct}
